@@ -104,6 +104,27 @@ def run_one(rng, odb):
         got = t.get_obj(odb, p)
         if got is None or got.hash_info.value != canonical_id(sub):
             probs.append(f"(4) get_obj({'/'.join(p)}) -> {getattr(getattr(got, 'hash_info', None), 'value', None)}, built directly: {canonical_id(sub)}")
+    # (4') the same tree object after an entry was REPLACED (a file was edited and re-added under its key) and after one was added:
+    # prefix queries made before must not leak into the answers given afterwards
+    if prefixes:
+        k1 = rng.choice([k for k in keys if len(k) > 1])
+        entries2 = dict(entries)
+        entries2[k1] = next(d for d in DIGESTS if d != entries[k1])
+        t.add(k1, None, HashInfo("md5", entries2[k1]))
+        knew = k1[:-1] + ("zz-new",)
+        if rng.random() < 0.4 and not any(k[: len(knew)] == knew or knew[: len(k)] == k for k in entries2):
+            entries2[knew] = DIGESTS[0]
+            t.add(knew, None, HashInfo("md5", DIGESTS[0]))
+        t.digest()
+        if t.hash_info.value != canonical_id(entries2):
+            probs.append("(4') after replacing / adding an entry the identifier is not the canonical one of the new listing")
+        for p in sorted(prefixes):
+            sub = {k[len(p):]: d for k, d in entries2.items() if k[: len(p)] == p}
+            got = t.get_obj(odb, p)
+            if got is None or got.hash_info.value != canonical_id(sub):
+                probs.append(f"(4') after replacing {'/'.join(k1)}: get_obj({'/'.join(p)}) -> {getattr(getattr(got, 'hash_info', None), 'value', None)}, built directly: {canonical_id(sub)}")
+                break
+        t = build_tree(entries, keys, with_meta=True)
     for p in sorted(non_dirs):
         got = t.get_obj(odb, p)
         if got is not None:
@@ -125,7 +146,7 @@ def main():
             evals += 1
     print(json.dumps({"evaluations": evals, "distinct_nontrivial": evals, "n_failures": len(failures), "failures": failures[:4],
                       "bound": f"{n} seeded entry sets: <= 7 files, depth <= 4, 17 path components (textual-extension siblings, composed/decomposed Unicode twins, upper case, astral), 5 digests; "
-                               "3 insertion orders each, every prefix"}))
+                               "3 insertion orders each, every prefix, also after an entry of the same tree object was replaced / added"}))
 
 
 if __name__ == "__main__":
